@@ -11,6 +11,7 @@ Property theorems only (helpers: Proofs/FineGrained.lean, Proofs/FineGrainedSem.
   no unit's recorded inputs differ from the current snapshots; the only other outcome is the explicit
   `maxIter` (the code's `RuntimeError`).  No fuel is hidden: `closure_complete` shows the worklist bound is
   never reached.
+* `closure_exact` — the worklist of `find_targets_recursive` is exactly reachability in the dependency map.
 * `update_eq_full` — for the semantic instance (symbol snapshots, per-target checker `checkT`, recorded
   inputs): after every `update` of every edit history the error map is the one of a from-scratch check of the
   current program, and the rendered messages agree file by file, in order
@@ -39,6 +40,11 @@ theorem propagate_reaches_fixpoint (S : Sys σ) (Inv : σ → Prop) (Stale : σ 
   rcases propagate_spec S Inv Stale spec k s trig utd terr rem hinv h with h | ⟨s', rem', h1, _, h3⟩
   · exact Or.inl h
   · exact Or.inr ⟨s', rem', h1, h3⟩
+
+/-- `find_targets_recursive`'s worklist computes exactly the locations reachable from the active triggers
+    through the dependency map — nothing is cut off by the round bound, nothing extra is visited. -/
+theorem closure_exact (d : Deps) (S : List Node) (x : Node) : x ∈ closure d S ↔ Reach d S x :=
+  ⟨closure_sound d S, closure_complete d S⟩
 
 /-- non-vacuity (1): a two-module system in which the second unit becomes stale only because of the trigger
     fired while reprocessing the first one — two iterations, then a fixpoint.
@@ -179,6 +185,11 @@ theorem update_eq_full (full : World → SemSt) : ∀ (hist : List (World × Lis
       refine ⟨heq, ?_, update_eq_full full rest W' u' hg' hrest⟩
       intro prev f
       rw [sortMessages_keeps_file_order, newMessages_congr W' _ _ heq]
+
+/-- the `update` of these theorems is the generic `updateG` (the function Driver/C03 replays against the real
+    `FineGrainedBuildManager.update`) at the semantic instance -/
+theorem updateG_sem (W : World) (u : UpdSt) (C : List Mod) :
+    updateG (semUSys W) u.toG C = (update W u C).map UpdSt.toG := update_eq W u C
 
 /-- no error whose cause was removed survives, no error of the full check is missed — the set version -/
 theorem update_same_messages (W W' : World) (C : List Mod) (u u' : UpdSt) (sFull : SemSt) (prev : List Msg)
